@@ -4,7 +4,7 @@
 // terminal_is_recognised).  One instantiation per format because the hook structs are private.
 
 use super::*;
-use crate::verif_common::{label_round_trip, instr_round_trip, instr_size_field, terminal_is_recognised, Stored, SizeField};
+use crate::verif_common::{instr_time_is_stored, label_round_trip, instr_round_trip, instr_size_field, terminal_is_recognised, Stored, SizeField};
 
 macro_rules! c03 {
     ($name:ident, $unwind:literal, $body:expr) => {
@@ -112,6 +112,11 @@ c03!(c03_std_quad_terminal, 6, {
     }
     core::mem::forget(emitter);
 });
+
+//@ C13 c13_std06_time_stored quick default STD (TH06-09): if write_instr accepts an instruction, the time read back from the written bytes is the requested time, for every i32 time (a time that does not fit the field must be rejected, never stored differently)
+c03!(c13_std06_time_stored, 16, instr_time_is_stored::<12>(&StdHooks06, Stored { param_mask: false, difficulty: false, extra_arg: false, pop_and_arg_count: false, maybe_terminal: false, ignore_param_mask: false }, |_| true));
+//@ C13 c13_std10_time_stored quick default STD (TH095+): if write_instr accepts an instruction, the time read back from the written bytes is the requested time, for every i32 time (a time that does not fit the field must be rejected, never stored differently)
+c03!(c13_std10_time_stored, 8, instr_time_is_stored::<4>(&StdHooks10, Stored { param_mask: false, difficulty: false, extra_arg: false, pop_and_arg_count: false, maybe_terminal: false, ignore_param_mask: false }, |_| true));
 
 #[cfg(kani)]
 #[path = "/verif/.cache/playback/std.rs"]
